@@ -31,26 +31,35 @@ def main(tier, seed):
         rows += [rng.choice(rows) for _ in range(rng.randint(0, 2))]          # duplicates
         if rng.random() < 0.3:
             rows.append(rng.randrange(it.n))                                   # a training row as query
-        preds, rel = impl_predict(opf, it, rows)
+        try:
+            preds, rel = impl_predict(opf, it, rows)
+        except Exception as ex:
+            nviol += 1
+            if nviol <= 3:
+                rep.violation(("semi-supervised" if semi else "supervised") + " predict raised %r on batch %r" % (ex, rows), it.desc(), key="predict_position:sup")
+            continue
         stats["semi" if semi else "sup"] += 1; stats["queries"] += len(rows)
         rk = ranker_for(it)
         terms.append(term_predict(it, rk, rows=rows, semi=semi)); expect.append(preds + rel); insts.append(it)
         rep.count_case((it.key(), tuple(rows)), True)
         msg = None
         perm = list(range(len(rows))); rng.shuffle(perm)
-        pp, _ = impl_predict(opf, it, [rows[j] for j in perm])
-        for a, j in enumerate(perm):
-            if pp[a] != preds[j]:
-                msg = "point %d predicted %d in batch %r but %d in the permuted batch" % (rows[j], preds[j], rows, pp[a]); break
-        if not msg:
-            for j, r in enumerate(rows):
-                one, _ = impl_predict(opf, it, [r])
-                if one[0] != preds[j]:
-                    msg = "point %d predicted %d at position %d of batch %r but %d alone" % (r, preds[j], j, rows, one[0]); break
-        if not msg:
-            again, _ = impl_predict(opf, it, rows)
-            if again != preds:
-                msg = "a second predict call on the same batch returned different labels"
+        try:
+            pp, _ = impl_predict(opf, it, [rows[j] for j in perm])
+            for a, j in enumerate(perm):
+                if pp[a] != preds[j]:
+                    msg = "point %d predicted %d in batch %r but %d in the permuted batch" % (rows[j], preds[j], rows, pp[a]); break
+            if not msg:
+                for j, r in enumerate(rows):
+                    one, _ = impl_predict(opf, it, [r])
+                    if one[0] != preds[j]:
+                        msg = "point %d predicted %d at position %d of batch %r but %d alone" % (r, preds[j], j, rows, one[0]); break
+            if not msg:
+                again, _ = impl_predict(opf, it, rows)
+                if again != preds:
+                    msg = "a second predict call on the same batch returned different labels"
+        except Exception as ex:
+            msg = "predicting rows of batch %r alone / permuted / again raised %r although the whole batch was predicted" % (rows, ex)
         if not msg:
             st2 = node_state(opf.subgraph)
             for f in ("cost", "pred", "plabel", "label", "status", "order"):
